@@ -96,7 +96,7 @@ func init() {
 			c.Tag("sam-form")
 			return c
 		}
-		c := genVarCase(r, id, varOpts{fmtWeights: [2]int{1, 2}, withIns: r.Chance(1, 3), gffShapes: true, allowPhase: true, maxGenes: 6, sameName: true, sameNameLoci: true})
+		c := genVarCase(r, id, varOpts{fmtWeights: [2]int{1, 2}, withIns: r.Chance(1, 3), gffShapes: true, allowPhase: true, maxGenes: 6, sameName: true, sameNameLoci: true, ambRef: true})
 		c.Set("focus", "nucaa") // C04 speaks about nuc: and aa: records; ins:/del: belong to C05
 		return c
 	}
@@ -104,7 +104,9 @@ func init() {
 	// C05: gap layouts, and the column-invariance relation on the real code
 	gens["C05"] = func(r *RNG, id string) *Case {
 		if r.Chance(1, 4) { // the SAM form: multi-record queries, insertions after N / D, several insertions per record
+			genSamOverlapOften = true
 			c := samVarGen(r, id, r.PickInt([]int{2, 5}), false)
+			genSamOverlapOften = false
 			c.Set("focus", "indel")
 			c.Tag("sam-form")
 			return c
@@ -120,7 +122,7 @@ func init() {
 	// C17 (as used): the translation of every kind of IUPAC codon inside `variants`, forward and reverse features
 	gens["C17var"] = func(r *RNG, id string) *Case {
 		denseIUPAC = true
-		c := genVarCase(r, id, varOpts{fmtWeights: [2]int{1, 1}, withIns: false, maxGenes: 3})
+		c := genVarCase(r, id, varOpts{fmtWeights: [2]int{1, 1}, withIns: false, maxGenes: 3, ambRef: true})
 		denseIUPAC = false
 		c.Set("focus", "nucaa")
 		c.Tag("dense-iupac")
